@@ -127,6 +127,8 @@ def run(ctx):
     from . import iters as IT_
     IT_.check_overrides(ctx, F, "H5.T5", "TagIter")
     ctx.import_prop("C15")
+    from . import c15 as C15_
+    C15_.cast_rejects_exactly(ctx, F, "H4")
     # "for every valid header": a valid header is one load() accepts - that load rejects only what C10 says it rejects (exit chain,
     # magic and checksum predicates) is what makes the accessors reachable for every valid header (seed C11-7b: a checksum
     # predicate that left the architecture out rejected every valid MIPS32 header)
